@@ -18,12 +18,16 @@ from harness import kernel, layerb, pairs
 from harness.common import SEED, Check, MachineryError, cap, quiet_pydrex, run_tlc
 
 PAR = dict(n=3.5, p=1.5, lam=5.0, M=125.0, phi=0.7)
+# parameter points for the rate-level relations (incl. whole-number exponents, even and odd)
+PARS = [PAR, dict(n=2.0, p=1.0, lam=5.0, M=125.0, phi=1.0), dict(n=4.0, p=2.0, lam=0.0, M=50.0, phi=0.3),
+        dict(n=5.0, p=1.5, lam=10.0, M=200.0, phi=0.7), dict(n=3.0, p=1.0, lam=5.0, M=10.0, phi=1.0)]
 
 
 def rate_level(chk, core, rng, count):
     """instantaneous rates under frame rotation and two-folds, on float inputs (1e-9)."""
     worst = 0.0
     for i in range(count):
+        PAR = PARS[(i // 3) % len(PARS)]
         fab = ["A", "B", "C", "D", "E", "EN"][i % 6]
         regime = [4, 6][(i // 6) % 2]
         phase, fabric = kernel.FAB[fab]
@@ -52,9 +56,9 @@ def rate_level(chk, core, rng, count):
         worst = max(worst, dev, dev2)
         chk.count(("rate", i))
         if dev > 1e-9:
-            chk.violation(dict(level="rates", clause="frame-rotation", fabric=fab, regime=regime), f"rates are not frame-indifferent: deviation {dev:.3g} (fabric {fab}, regime {regime})", dict(fab=fab, regime=regime, A=A.tolist(), f=f.tolist(), L=L.tolist(), Q=Q.tolist()))
+            chk.violation(dict(level="rates", clause="frame-rotation", fabric=fab, regime=regime), f"rates are not frame-indifferent: deviation {dev:.3g} (fabric {fab}, regime {regime}, params {PAR})", dict(fab=fab, regime=regime, par=PAR, A=A.tolist(), f=f.tolist(), L=L.tolist(), Q=Q.tolist()))
         if dev2 > 1e-9:
-            chk.violation(dict(level="rates", clause="crystal-two-fold", fabric=fab, regime=regime), f"rates are not invariant under a lattice two-fold: deviation {dev2:.3g} (fabric {fab}, regime {regime})", dict(fab=fab, regime=regime, A=A.tolist(), f=f.tolist(), L=L.tolist(), S=S.tolist(), mask=mask.tolist()))
+            chk.violation(dict(level="rates", clause="crystal-two-fold", fabric=fab, regime=regime), f"rates are not invariant under a lattice two-fold: deviation {dev2:.3g} (fabric {fab}, regime {regime}, params {PAR})", dict(fab=fab, regime=regime, par=PAR, A=A.tolist(), f=f.tolist(), L=L.tolist(), S=S.tolist(), mask=mask.tolist()))
     chk.maximum("rate_level_deviation", worst)
 
 
@@ -71,7 +75,7 @@ def main(tier):
     from pydrex import core
 
     rng = np.random.default_rng(SEED + 44)
-    rate_level(chk, core, rng, 120 if quick else 2000)
+    rate_level(chk, core, rng, 180 if quick else 3000)
     events, meta = [], {}
     for si, sc in enumerate(scens):
         o0, f0 = pairs.initial(sc, rng)
